@@ -40,6 +40,8 @@ fn run_scenario(sc: &Value, t: &mut Tracer) {
 	let (from, to) = match param {
 		"track_pause" | "sound_pause" => (0, -6000),
 		"track_resume" => (-6000, 0),
+		// towards exactly 0 dB (unity), from -12 dB set beforehand
+		"main_vol_up" | "track_vol_up" => (-1200, 0),
 		_ => (0, -2000),
 	};
 	// frz: the parameter sits beneath the track that gets paused (it freezes with it) - the sound's own volume
@@ -55,6 +57,18 @@ fn run_scenario(sc: &Value, t: &mut Tracer) {
 	// warm-up: everything picked up, baseline amplitude (direct path + send path, equal at 0 dB)
 	let _ = sim.callback(b);
 	let base = sim.callback(b).out[0] as f64;
+	let mut base = base;
+	if param == "main_vol_up" || param == "track_vol_up" {
+		if param == "main_vol_up" {
+			sim.manager.main_track().set_volume(Decibels(-12.0), tw(0));
+		} else {
+			a.set_volume(Decibels(-12.0), tw(0));
+		}
+		let _ = sim.callback(b);
+		let _ = sim.callback(b);
+		let _ = base;
+		base = base; // (gains stay relative to the 0 dB baseline measured above)
+	}
 	if param == "track_resume" {
 		a.pause(tw(0));
 		let _ = sim.callback(b);
@@ -66,7 +80,8 @@ fn run_scenario(sc: &Value, t: &mut Tracer) {
 		"track_vol" => a.set_volume(target, tw(d)),
 		"send_vol" => send.set_volume(target, tw(d)),
 		"route_vol" => a.set_send(&send, target, tw(d)).unwrap(),
-		"main_vol" => sim.manager.main_track().set_volume(target, tw(d)),
+		"main_vol" | "main_vol_up" => sim.manager.main_track().set_volume(target, tw(d)),
+		"track_vol_up" => a.set_volume(target, tw(d)),
 		"sound_vol" => snd.set_volume(target, tw(d)),
 		"track_pause" => a.pause(tw(d)),
 		"sound_pause" => snd.pause(tw(d)),
